@@ -49,7 +49,7 @@ finding(["C02","C13"], "S5", "AP.S~Shape.S",
 for key, sig in [("tensor.(*Dense).TensorMul(axesA)", "mutates element store at"), ("tensor.(*Dense).TensorMul(axesB)", "mutates element store at"),
                  ("tensor.Contract(aAxes)", "mutates via TensorMul: element store at"), ("tensor.Contract(bAxes)", "mutates via TensorMul: element store at")]:
     finding(["C19","C09"], "O3", key, "TensorMul normalises negative axes in place in the caller's axesA/axesB slices (axesA[i] += td)", sig, 11)
-finding(["C19","C13","C03","C08","C04"], "O8", "tensor.(*Dense).ShallowClone#store1",
+finding(["C19","C13","C03","C08","C04","C09"], "O8", "tensor.(*Dense).ShallowClone#store1",
         "ShallowClone shares old (and transposeWith) with the source: s := a.ShallowClone(); s.UT(); a.UT() puts one slice in the pool twice",
         "alias stored into another object", 33)
 
